@@ -4,8 +4,9 @@ CONSTANTS
   Streams = {"t1","t2"}
   Sizes = {0}
   Limits = {1}
+  Iters = {"k1","k2"}
   DefaultMax = 10485760
 CONSTRAINT TMark
-INVARIANTS Accounting SuffixRetained Bounded ClosedReleased NoPanic
+INVARIANTS Accounting SuffixRetained Bounded ClosedReleased NoPanic ReplayExact IdleHoldsNothing
 POSTCONDITION TAccepted
 CHECK_DEADLOCK FALSE
